@@ -286,3 +286,54 @@ Section RoundTrip.
       (rewrite bstep_around_tail by pos_side); case_ifs; (rewrite bstep_around_strict by pos_side); finish.
   Qed.
 End RoundTrip.
+
+(* ---- _undelimit_node undoes _delimit_node on every node ----------------------------------------------------------------------- *)
+Lemma undelimit_flags :
+  undelimit_close = {| pc_tail := TTrue; pc_head := TTrue; pc_excl_self := false; pc_offset_excluded := true |}
+  /\ undelimit_open = {| pc_tail := TFalse; pc_head := TTrue; pc_excl_self := false; pc_offset_excluded := true |}.
+Proof. split; reflexivity. Qed.
+
+Section RoundTripOwn.
+  Variables ls cs le ce : Z.
+  Hypothesis HT : pos_lt ls cs le ce = true.
+  Let e := ce + b2z (le =? ls).
+
+  Lemma undo_own_pos r l c el ec :
+    undelimit_pos ls cs le e r (l, c, el, ec)
+    = offset_spec ls (cs + 1) 0 (-1) TFalse TTrue (offset_spec le (e + 1) 0 (-1) TTrue TTrue (l, c, el, ec)).
+  Proof. unfold undelimit_pos. destruct undelimit_flags as (-> & ->). rewrite !put_at_all by reflexivity. reflexivity. Qed.
+
+  Theorem undelimit_delimit_self : undelimit_pos ls cs le e RSelf (delimit_pos ls cs le ce RSelf (ls, cs, le, ce)) = (ls, cs, le, ce).
+  Proof.
+    rewrite delimit_self by assumption. rewrite undo_own_pos. subst e. unfold b2z. case_ifs;
+      (rewrite bstep_around_tail by pos_side); case_ifs; (rewrite bstep_around_strict by pos_side); finish.
+  Qed.
+
+  Theorem undelimit_delimit_inner l c el ec : pos_lt l c el ec = true -> pos_le ls cs l c = true -> pos_le el ec le ce = true ->
+    undelimit_pos ls cs le e RInner (delimit_pos ls cs le ce RInner (l, c, el, ec)) = (l, c, el, ec).
+  Proof.
+    intros Hne Hs He. rewrite delimit_inner_frame by assumption. rewrite undo_own_pos. subst e. unfold char_col, end_col, b2z. case_ifs;
+      (rewrite bstep_strictly_before by pos_side); (rewrite bstep_after by pos_side); finish.
+  Qed.
+
+  Theorem undelimit_delimit_after l c el ec : pos_lt l c el ec = true -> pos_le le ce l c = true ->
+    undelimit_pos ls cs le e ROther (delimit_pos ls cs le ce ROther (l, c, el, ec)) = (l, c, el, ec).
+  Proof.
+    intros Hne Haf. rewrite delimit_frame by auto. rewrite undo_own_pos. subst e. unfold char_col, end_col, b2z. case_ifs;
+      (rewrite bstep_after by pos_side); (rewrite bstep_after by (case_ifs; pos_side)); finish.
+  Qed.
+
+  Theorem undelimit_delimit_before l c el ec : pos_lt l c el ec = true -> pos_le el ec ls cs = true ->
+    undelimit_pos ls cs le e ROther (delimit_pos ls cs le ce ROther (l, c, el, ec)) = (l, c, el, ec).
+  Proof.
+    intros Hne Hbe. rewrite delimit_frame by auto. rewrite undo_own_pos. subst e. unfold char_col, end_col, b2z. case_ifs;
+      (rewrite bstep_strictly_before by pos_side); (rewrite bstep_strictly_before by pos_side); finish.
+  Qed.
+
+  Theorem undelimit_delimit_ancestors l c el ec : pos_le l c ls cs = true -> pos_le le ce el ec = true ->
+    undelimit_pos ls cs le e ROther (delimit_pos ls cs le ce ROther (l, c, el, ec)) = (l, c, el, ec).
+  Proof.
+    intros Hs He. rewrite delimit_ancestors by assumption. rewrite undo_own_pos. subst e. unfold b2z. case_ifs;
+      (rewrite bstep_around_tail by pos_side); case_ifs; (rewrite bstep_around_strict by pos_side); finish.
+  Qed.
+End RoundTripOwn.
